@@ -213,6 +213,7 @@ func c16Run(rc *RunCtx, params any) {
 		rc.R.Class = "hs/" + v.Name
 	}
 	plainAlerts = cspec.MaxVer == 12 && cspec.CIDLen < 0 && sspec.CIDLen < 0
+	rc.Note("proto", protoTag(cspec, sspec))
 	n := NewSimNet(s, p.Rules)
 	pair, err := NewPair(s, n, cspec, sspec, nil)
 	if err != nil {
